@@ -196,10 +196,6 @@ def check_state(acc, c, insts, case, site):
             kind = "spliced-node" if "_" in n and n.split("_")[0] in {it.name for it in insts} else "pre-existing-node"
             acc.violation(site, f"{kind}-function-differs", dict(case, node=n), f"node {n}")
             return False
-    extra = set(c.graph.nodes) - set(want) - set(dangling_pins(insts))
-    if extra:
-        acc.violation(site, "unexpected-nodes", case, sorted(extra)[:5])
-        return False
     acc.observe(sorted((n, hex(v[0])) for n, v in want.items()))
     return True
 
